@@ -42,7 +42,8 @@ def facts_controls(ctx, rep):
     got = {}
     for i, c, ok in end_index_accesses(ctx, mod):
         got.setdefault(i.fn.cname, []).append(ok)
-    if not (got.get("strip_bad") and not any(got["strip_bad"]) and got.get("strip_ok") and all(got["strip_ok"])):
+    if not (got.get("strip_bad") and not any(got["strip_bad"]) and got.get("strip_ok") and all(got["strip_ok"])
+            and got.get("strip_ptr_bad") and not any(got["strip_ptr_bad"]) and got.get("strip_ptr_ok") and all(got["strip_ptr_ok"])):
         _fail(rep, "end-index", "end-indexed string control: %s" % got)
     imod = ctx.fixture("fx_facts", inline=True)
     sel = {}
